@@ -36,6 +36,10 @@ QUICK = [
     _c('coarse_transport_mask_second_half', 'coarse', dict(T=4, kind='transport', eff=0.5), ('mask', [0, 1, 0, 0])),
     _c('orderbook_mask', 'orderbook', dict(T=3), ('mask', [0, 0, 1])),
     _c('periodic_contract_mask', 'periodic', dict(T=4, kind='contract'), ('mask', [0, 0, 1, 0])),
+    _c('two_node_mask_as_list', 'two_node', dict(T=3), ('mask_list', [0, 1, 1])),
+    _c('two_node_integer_indices', 'two_node', dict(T=3), ('indices', [0, 2])),
+    _c('two_node_integer_indices_list_unordered', 'two_node', dict(T=4), ('indices_list', [3, 1])),
+    _c('two_node_pandas_timestamp', 'two_node', dict(T=3), ('timestamp', 1, 30)),
     _c('scaled_mask_first_step', 'scaled', dict(T=3, base='storage'), ('mask', [1, 0, 0])),
     _c('scaled_periodic_base_first_step', 'scaled', dict(T=5, base='periodic_contract'), ('mask', [1, 0, 0, 0, 0])),
     _c('scaled_mask_later_step', 'scaled', dict(T=3, base='transport'), ('mask', [0, 0, 1])),
@@ -93,6 +97,15 @@ def window_arg(tg, win):
     if win[0] == 'mask':
         m = np.array([bool(v) for v in win[1]])
         return m, {t for t in range(tg.T) if m[t]}
+    if win[0] == 'mask_list':             # the same as a plain python list of booleans
+        return [bool(v) for v in win[1]], {t for t in range(tg.T) if win[1][t]}
+    if win[0] == 'indices':               # time steps given as an array of indices
+        return np.array([int(v) for v in win[1]]), {int(v) for v in win[1]}
+    if win[0] == 'indices_list':
+        return [int(v) for v in win[1]], {int(v) for v in win[1]}
+    if win[0] == 'timestamp':             # a pandas Timestamp instead of a datetime
+        d_ = tg.timepoints[win[1]] + pd.Timedelta(minutes=win[2])
+        return pd.Timestamp(d_), {t for t in range(tg.T) if tg.timepoints[t] <= d_}
     k, minutes = win[1], win[2]
     d = (tg.timepoints[k] + pd.Timedelta(minutes=minutes))
     steps = {t for t in range(tg.T) if tg.timepoints[t] <= d}
